@@ -941,4 +941,6 @@ def replay(obj):
         if saved_nc is not None:
             os.environ['NO_COLOR'] = saved_nc
     print(json.dumps(f, indent=1, default=str)[:2000])
-    return 0
+    import sys
+    from common import rerun_for_signature
+    return rerun_for_signature(sys.modules[__name__], f)
